@@ -81,6 +81,21 @@ theorem get_del (m : Map κ ν) (k k2 : κ) :
   · subst h; simp
   · simp [h, get_del_other _ _ _ h]
 
+/-- lookup after `set`: either the new value at the key, or an old value -/
+theorem get_set_cases {m : Map κ ν} {k k2 : κ} {v w : ν}
+    (h : get (set m k v) k2 = some w) : (k = k2 ∧ w = v) ∨ get m k2 = some w := by
+  rw [get_set] at h
+  split at h
+  · left; exact ⟨by assumption, by simpa using h.symm⟩
+  · right; exact h
+
+theorem get_del_some {m : Map κ ν} {k k2 : κ} {w : ν}
+    (h : get (del m k) k2 = some w) : k ≠ k2 ∧ get m k2 = some w := by
+  rw [get_del] at h
+  split at h
+  · simp at h
+  · exact ⟨by assumption, h⟩
+
 /-- membership of a pair, related to lookup -/
 theorem get_of_mem_head (m : Map κ ν) (k : κ) (v : ν) (h : get m k = some v) : (k, v) ∈ m := by
   induction m with
